@@ -80,10 +80,11 @@ class Path:
 
 class Outcome:
     """Result of running a piece of code on one path."""
-    __slots__ = ("kind", "val", "bytes")   # kind: return | raise | fall
+    __slots__ = ("kind", "val", "bytes", "trail", "facts")
 
-    def __init__(self, kind, val, bytes_):
-        self.kind, self.val, self.bytes = kind, val, bytes_
+    def __init__(self, kind, val, bytes_, trail=(), facts=None):
+        self.kind, self.val, self.bytes, self.trail = kind, val, bytes_, trail
+        self.facts = facts
 
     def __repr__(self):
         return "<%s %r on %s>" % (self.kind, self.val, brief_bytes(
@@ -209,11 +210,17 @@ class TriInterp:
                 params = params[1:]
             for pn, a in zip(params, args):
                 env[pn] = a
+            if "__trail__" in path.env:
+                env["__trail__"] = path.env["__trail__"]
+            if "__facts__" in path.env:
+                env["__facts__"] = path.env["__facts__"]
             p0 = Path(path.bytes, env)
             outs = []
             falls = self.exec_block(fn.body, [p0], owner, outs)
             for p in falls:
-                outs.append(Outcome("return", NONE, p.bytes))
+                outs.append(Outcome("return", NONE, p.bytes,
+                                    p.env.get("__trail__", ()),
+                                    p.env.get("__facts__")))
             return outs
         finally:
             self.depth -= 1
@@ -255,7 +262,12 @@ class TriInterp:
             if o.kind == "raise":
                 outs.append(o)
             else:
-                res.append((Path(o.bytes, dict(path.env)), o.val))
+                q = Path(o.bytes, dict(path.env))
+                if o.trail:
+                    q.env["__trail__"] = o.trail
+                if o.facts is not None:
+                    q.env["__facts__"] = o.facts
+                res.append((q, o.val))
         return res
 
     def lift(self, v):
@@ -265,6 +277,8 @@ class TriInterp:
             return V("const", v)
         if isinstance(v, ClassRef):
             return V("classref", v.cls)
+        if isinstance(v, range):
+            return V("constrange", v)
         if isinstance(v, (list, tuple)):
             return V("constseq", tuple(v))
         if isinstance(v, dict):
@@ -291,10 +305,14 @@ class TriInterp:
             return [p for (p, v) in self.ev(s.value, path, owner, outs)]
         if isinstance(s, ast.Return):
             if s.value is None:
-                outs.append(Outcome("return", NONE, path.bytes))
+                outs.append(Outcome("return", NONE, path.bytes,
+                                    path.env.get("__trail__", ()),
+                                    path.env.get("__facts__")))
                 return []
             for (p, v) in self.ev(s.value, path, owner, outs):
-                outs.append(Outcome("return", v, p.bytes))
+                outs.append(Outcome("return", v, p.bytes,
+                                    p.env.get("__trail__", ()),
+                                    p.env.get("__facts__")))
             return []
         if isinstance(s, ast.Raise):
             if s.exc is None:
@@ -332,14 +350,19 @@ class TriInterp:
             return res
         if isinstance(s, ast.If):
             res = []
+            txt = unparse(s.test)
             for (p, t) in self.truth(s.test, path, owner, outs):
                 if t is True:
-                    res += self.exec_block(s.body, [p], owner, outs)
+                    res += self.exec_block(s.body, [self._trail(
+                        p, txt, True)], owner, outs)
                 elif t is False:
-                    res += self.exec_block(s.orelse, [p], owner, outs)
+                    res += self.exec_block(s.orelse, [self._trail(
+                        p, txt, False)], owner, outs)
                 else:
-                    res += self.exec_block(s.body, [p.fork()], owner, outs)
-                    res += self.exec_block(s.orelse, [p.fork()], owner, outs)
+                    res += self.exec_block(s.body, [self._trail(
+                        p.fork(), txt, True)], owner, outs)
+                    res += self.exec_block(s.orelse, [self._trail(
+                        p.fork(), txt, False)], owner, outs)
             return res
         if isinstance(s, ast.For):
             res = []
@@ -395,6 +418,11 @@ class TriInterp:
                     if t is not False]
         raise AnalysisError("tri: unsupported statement %s at line %s"
                             % (type(s).__name__, s.lineno))
+
+    def _trail(self, p, txt, val):
+        q = p.fork()
+        q.env["__trail__"] = q.env.get("__trail__", ()) + ((txt, val),)
+        return q
 
     def _dedup(self, paths):
         seen, out = set(), []
@@ -457,6 +485,16 @@ class TriInterp:
             if nz:
                 out.append((p.fork(nz), True))
             return out
+        if v.kind == "bfun":
+            f = v.val
+            z = frozenset(b for b in p.bytes if not f(b))
+            nz = p.bytes - z
+            out = []
+            if z:
+                out.append((p.fork(z), False))
+            if nz:
+                out.append((p.fork(nz), True))
+            return out
         if v.kind in ("enum",):
             # IntEnum member: truthiness of its int value
             z = p.bytes & {0}
@@ -494,14 +532,31 @@ class TriInterp:
             res += [(q, t) for (q, _, t) in cur]
         return res
 
+    def subscript_hook(self, p, base, e, owner, outs):
+        return None
+
+    def cmp_hook(self, p, l, op, r):
+        return None
+
+    def call_hook(self, e, f, p, args, owner, outs):
+        return None
+
+    def attr_hook(self, p, base, name, owner, outs):
+        return None
+
     def cmp1(self, p, l, op, r):
-        # byte vs const int
-        if l.kind == "byte" and r.kind == "const" and isinstance(
-                r.val, int) and not isinstance(r.val, bool):
-            return self._split_byte(p, lambda b: _cmp(op, b, r.val))
-        if r.kind == "byte" and l.kind == "const" and isinstance(
-                l.val, int) and not isinstance(l.val, bool):
-            return self._split_byte(p, lambda b: _cmp(op, l.val, b))
+        h = self.cmp_hook(p, l, op, r)
+        if h is not None:
+            return h
+        # (function of the) byte vs const int
+        if _bf(l) is not None and _cint(r) is not None and not isinstance(
+                op, (ast.In, ast.NotIn)):
+            f = _bf(l)
+            return self._split_byte(p, lambda b: _cmp(op, f(b), r.val))
+        if _bf(r) is not None and _cint(l) is not None and not isinstance(
+                op, (ast.In, ast.NotIn)):
+            f = _bf(r)
+            return self._split_byte(p, lambda b: _cmp(op, l.val, f(b)))
         if isinstance(op, (ast.Is, ast.IsNot)):
             known = None
             if l.kind == "const" and r.kind == "const":
@@ -549,10 +604,13 @@ class TriInterp:
                 keys = set(r.val.keys())
             elif r.kind == "constseq":
                 keys = set(r.val)
-            if keys is not None and l.kind == "byte":
+            if r.kind == "constrange":
+                keys = r.val
+            if keys is not None and _bf(l) is not None:
                 pos = isinstance(op, ast.In)
+                f = _bf(l)
                 return self._split_byte(
-                    p, lambda b: (b in keys) == pos)
+                    p, lambda b: (f(b) in keys) == pos)
             if keys is not None and l.kind == "const":
                 try:
                     t = l.val in keys
@@ -624,8 +682,22 @@ class TriInterp:
                 return [(p, V("const", not t) if t is not None else BOOLV)
                         for (p, t) in self.truth(e.operand, path, owner,
                                                  outs)]
-            return [(p, INT) for (p, v) in self._ev(e.operand, path, owner,
-                                                    outs)]
+            res = []
+            for (p, v) in self._ev(e.operand, path, owner, outs):
+                if v.kind == "const" and isinstance(v.val, (int, float)):
+                    if isinstance(e.op, ast.USub):
+                        res.append((p, V("const", -v.val)))
+                    elif isinstance(e.op, ast.Invert) and isinstance(
+                            v.val, int):
+                        res.append((p, V("const", ~v.val)))
+                    else:
+                        res.append((p, v))
+                elif _bf(v) is not None and isinstance(e.op, ast.USub):
+                    f = _bf(v)
+                    res.append((p, V("bfun", lambda b, f=f: -f(b))))
+                else:
+                    res.append((p, INT))
+            return res
         if isinstance(e, ast.Compare):
             return [(p, V("const", t) if t is not None else BOOLV)
                     for (p, t) in self.compare(e, path, owner, outs)]
@@ -641,6 +713,14 @@ class TriInterp:
                     elif l.kind == "const" and r.kind == "const":
                         v = self.folder.eval(e, {}, mod)
                         res.append((q, self.lift(v)))
+                    elif _bf(l) is not None and _cint(r) is not None and \
+                            type(e.op) in _BOPS:
+                        f, c, o = _bf(l), _cint(r), _BOPS[type(e.op)]
+                        res.append((q, V("bfun", _compose(o, f, c, False))))
+                    elif _bf(r) is not None and _cint(l) is not None and \
+                            type(e.op) in _BOPS:
+                        f, c, o = _bf(r), _cint(l), _BOPS[type(e.op)]
+                        res.append((q, V("bfun", _compose(o, f, c, True))))
                     else:
                         res.append((q, INT if l.kind in (
                             "byte", "int", "const", "enum") else UNK))
@@ -666,6 +746,10 @@ class TriInterp:
         if isinstance(e, ast.Subscript):
             res = []
             for (p, base) in self._ev(e.value, path, owner, outs):
+                h = self.subscript_hook(p, base, e, owner, outs)
+                if h is not None:
+                    res += h
+                    continue
                 if isinstance(e.slice, ast.Slice):
                     res.append((p, INT if base.kind == "frame" else UNK))
                     continue
@@ -714,6 +798,9 @@ class TriInterp:
         return [(path, UNK)]
 
     def attr(self, p, base, name, owner, outs, node):
+        h = self.attr_hook(p, base, name, owner, outs)
+        if h is not None:
+            return h
         if base.kind == "self":
             return self.self_attr(name, p, owner, outs)
         if base.kind == "super":
@@ -778,6 +865,16 @@ class TriInterp:
 
     def call1(self, e, f, p, args, owner, outs):
         mod = owner.mod
+        h = self.call_hook(e, f, p, args, owner, outs)
+        if h is not None:
+            return h
+        if isinstance(f, ast.Name) and f.id not in p.env and args and all(
+                a.kind == "const" for a in args) and not e.keywords:
+            # constant call (range(-6, 7), bytes([0xff, 0xfe]), ...)
+            v = self.folder.eval(e, {}, mod)
+            from .fold import UNKNOWN as _U
+            if v is not _U:
+                return [(p, self.lift(v))]
         if isinstance(f, ast.Name):
             if f.id == "isinstance" and len(args) == 2:
                 t = self.isinstance_(args[0], e.args[1], mod)
@@ -833,11 +930,8 @@ class TriInterp:
                     res.append((q, UNK))
             elif fv.kind == "method":
                 rowner, fn = fv.val
-                for o in self.call_function(rowner, fn, q, args):
-                    if o.kind == "raise":
-                        outs.append(o)
-                    else:
-                        res.append((Path(o.bytes, dict(q.env)), o.val))
+                res += self._outs_to_vals(
+                    self.call_function(rowner, fn, q, args), q, outs)
             else:
                 res.append((q, UNK))
         return res
@@ -848,7 +942,7 @@ class TriInterp:
         for t in elts:
             name = unparse(t)
             if name == "int":
-                if v.kind in ("byte", "int", "enum", "bool"):
+                if v.kind in ("byte", "int", "enum", "bool", "bfun"):
                     verdicts.append(True)
                 elif v.kind == "const":
                     verdicts.append(isinstance(v.val, int))
@@ -862,7 +956,8 @@ class TriInterp:
                     verdicts.append(True)
                 elif v.kind == "const":
                     verdicts.append(isinstance(v.val, str))
-                elif v.kind in ("byte", "int", "enum", "frame", "bool"):
+                elif v.kind in ("byte", "int", "enum", "frame", "bool",
+                                "bfun"):
                     verdicts.append(False)
                 else:
                     verdicts.append(None)
@@ -887,6 +982,36 @@ class TriInterp:
         if all(x is False for x in verdicts):
             return False
         return None
+
+
+import operator as _op
+
+_BOPS = {ast.Add: _op.add, ast.Sub: _op.sub, ast.Mult: _op.mul,
+         ast.FloorDiv: _op.floordiv, ast.Mod: _op.mod, ast.LShift: _op.lshift,
+         ast.RShift: _op.rshift, ast.BitAnd: _op.and_, ast.BitOr: _op.or_,
+         ast.BitXor: _op.xor}
+
+
+def _bf(v):
+    """byte-function of an abstract value (identity for the byte itself)."""
+    if v.kind == "byte":
+        return lambda b: b
+    if v.kind == "bfun":
+        return v.val
+    return None
+
+
+def _cint(v):
+    if v.kind == "const" and isinstance(v.val, int) and not isinstance(
+            v.val, bool):
+        return v.val
+    return None
+
+
+def _compose(o, f, c, swapped):
+    if swapped:
+        return lambda b: o(c, f(b))
+    return lambda b: o(f(b), c)
 
 
 def _cmp(op, a, b):
